@@ -89,7 +89,11 @@ pub fn run_list(hash_mb: usize, searches: &[SearchSpec], st: &mut Stats) -> Resu
             continue; // terminal positions are outside the property's domain
         }
         st.eval();
-        let Limit::Depth(d) = spec.limit else { continue };
+        let d = match spec.limit {
+            Limit::Depth(d) => d,
+            Limit::DepthUnderMoveTime { depth, .. } => depth,
+            _ => continue,
+        };
         let out = match run_search(&game, &mut state, &spec.limit, 0) {
             Ok(o) => o,
             Err(pm) => {
@@ -258,6 +262,103 @@ pub fn run(run: &mut Run) -> &'static str {
         Case::Explicit { hash_mb, searches } => run_list(*hash_mb, searches, st),
     });
     }
+    // short forced mates searched very deep (iteration 34-40, bounded by six seconds): mate scores as
+    // window bounds at nodes with a remaining depth of 30 and more. Candidates are sparse random positions
+    // (at most six men); those in which a depth-6 search announces a mate in two to four are kept.
+    if deep_here {
+        let cases = tier.pick(24, 400);
+        let strat = tape(200..400).prop_map(Case::Tape);
+        run.proptest_part("very_deep_short_mates", RULE, strat, cases, move |c: &Case, st: &mut Stats| match c {
+            Case::Tape(data) => {
+                let mut t = Tape::new(data);
+                let mut found: Option<Pos> = None;
+                let mut narrow = false;
+                for attempt in 0..60 {
+                    let mut p = Pos::empty();
+                    if attempt % 4 != 3 {
+                        // smothered corner: the defending king is locked in by his own rook pawn and the
+                        // attacking king, he only has spare pawn moves - trees so narrow that iteration 35
+                        // takes seconds (8/7p/8/8/4N3/8/p1K5/k7 w and its relatives)
+                        use crate::refchess::sq;
+                        let flip = t.pick(2) == 0;
+                        let f = |x: i32| if flip { 7 - x } else { x };
+                        p.board[sq(f(0), 0) as usize] = Some(Pc::new(false, Kind::K));
+                        p.board[sq(f(0), 1) as usize] = Some(Pc::new(false, Kind::P));
+                        p.board[sq(f(2), t.pick(2) as i32) as usize] = Some(Pc::new(true, Kind::K));
+                        let ns = t.pick(64);
+                        if p.board[ns].is_none() {
+                            p.board[ns] = Some(Pc::new(true, [Kind::N, Kind::N, Kind::B][t.pick(3)]));
+                        }
+                        for _ in 0..1 + t.pick(2) {
+                            let s = sq(3 + t.pick(5) as i32, 3 + t.pick(4) as i32) as usize;
+                            if p.board[s].is_none() {
+                                p.board[s] = Some(Pc::new(false, Kind::P));
+                            }
+                        }
+                        p.white_to_move = true;
+                        p.fullmove = 1 + t.pick(40) as u32;
+                        if t.pick(2) == 0 {
+                            p = p.mirror();
+                        }
+                        if p.validate().is_err() || p.legal_moves().is_empty() {
+                            continue;
+                        }
+                        let spec = SearchSpec { fen: p.to_fen(), moves: vec![], limit: Limit::Depth(6) };
+                        let Some((_, game)) = build(&spec) else { continue };
+                        let mut state = PersistentState::new(1);
+                        let Ok(out) = run_search(&game, &mut state, &spec.limit, 0) else { continue };
+                        if out.infos.last().and_then(|i| i.mate).map_or(false, |m| (2..=4).contains(&m)) {
+                            found = Some(p);
+                            narrow = true;
+                            break;
+                        }
+                        continue;
+                    }
+                    let n_extra = 1 + t.pick(4);
+                    let mut squares: Vec<usize> = vec![];
+                    for _ in 0..(2 + n_extra) {
+                        let s = t.pick(64);
+                        if !squares.contains(&s) {
+                            squares.push(s);
+                        }
+                    }
+                    if squares.len() < 3 {
+                        continue;
+                    }
+                    p.board[squares[0]] = Some(Pc::new(true, Kind::K));
+                    p.board[squares[1]] = Some(Pc::new(false, Kind::K));
+                    for s in &squares[2..] {
+                        let kind = [Kind::Q, Kind::R, Kind::N, Kind::B, Kind::P, Kind::P][t.pick(6)];
+                        if kind == Kind::P && (*s < 8 || *s >= 56) {
+                            continue;
+                        }
+                        p.board[*s] = Some(Pc::new(t.pick(3) != 0, kind));
+                    }
+                    p.white_to_move = true;
+                    p.fullmove = 1 + t.pick(40) as u32;
+                    if p.validate().is_err() || p.legal_moves().is_empty() {
+                        continue;
+                    }
+                    let spec = SearchSpec { fen: p.to_fen(), moves: vec![], limit: Limit::Depth(6) };
+                    let Some((_, game)) = build(&spec) else { continue };
+                    let mut state = PersistentState::new(1);
+                    let Ok(out) = run_search(&game, &mut state, &spec.limit, 0) else { continue };
+                    if out.infos.last().and_then(|i| i.mate).map_or(false, |m| (2..=4).contains(&m)) {
+                        found = Some(p);
+                        break;
+                    }
+                }
+                let Some(p) = found else {
+                    st.discard();
+                    return Ok(());
+                };
+                st.class(if narrow { "smothered_corner_mate_searched_to_iteration_34_or_more" } else { "sparse_position_with_a_forced_mate_in_2_to_4" });
+                let depth = 34 + t.pick(6) as u8;
+                run_list(16, &[SearchSpec { fen: p.to_fen(), moves: vec![], limit: Limit::DepthUnderMoveTime { depth, ms: 6000 } }], st)
+            }
+            Case::Explicit { hash_mb, searches } => run_list(*hash_mb, searches, st),
+        });
+    }
     // all 255 iterations: positions whose tree is so small (every reply an immediate draw by the
     // fifty-move rule or by material) that a search to the largest depth takes
     // milliseconds; the reported depths must still be 1, 2, 3 ... and stop at the limit
@@ -322,7 +423,7 @@ pub fn run(run: &mut Run) -> &'static str {
     }
     if let Ok(bin) = std::env::var("VERIF_FAST_BIN") {
         if profile_name() == "checked" && run.only_parts.is_empty() {
-            run_sub_process(run, &bin, &["searches", "deep_mating_endgames", "all_iterations"]);
+            run_sub_process(run, &bin, &["searches", "deep_mating_endgames", "very_deep_short_mates", "all_iterations"]);
         }
     }
     RULE
